@@ -80,6 +80,12 @@ def _qc_builder(arities):
     return build
 
 
+def _find_bit(ex, base, args):
+    """qiskit QuantumCircuit.find_bit(bit).index is the position of the bit in the circuit (the symbolic q of the modelled Qubit)"""
+    q = ex.deref(args[0])
+    return ex.alloc(_Obj("BitLocations", (("index", q.get("_index")),)))
+
+
 def _m8(ex, env, ret):
     arities = ex.vt["qc"].arities
     marks = ex.deref(ret[0]).items
@@ -159,4 +165,5 @@ PSA = Contract(
     assumes=["M8 (deferral of post-selection: at most one qubit of a post-selected gate is touched by a later multi-qubit gate) - sufficient condition, argued in DESIGN.md"],
 )
 PSA.enum = enum_psa
+PSA.extern_methods = {("QuantumCircuit", "find_bit"): _find_bit}
 CONTRACTS.append(PSA)
